@@ -221,6 +221,29 @@ def check(ctx: Ctx) -> str:
                   f"parse_from records the imported name `{itxt}` on a path where `{itxt}.startswith('_')` was not rejected (guards: {[g for g, p in gs]}): `{{% from 'lib' import __dict__ as d %}}` then reads a private attribute of the template module with a raw getattr, also in the sandbox", pf.loc(c))
     vf = repo.func("compiler:CodeGenerator.visit_FromImport")
     ctx.check("getattr(included_template, {name!r}, missing)" in ast.unparse(vf.node), "from-import:emission", "compiler:CodeGenerator.visit_FromImport", "raw getattr emission", "visit_FromImport is expected to emit getattr(included_template, <name>, missing) (the rule above guards exactly this)", vf.loc())
+
+    ctx.rule("R7", "subscript surface: the sandbox returns `obj[key]` unchecked (only the attribute fallback asks is_safe_attribute), so every __getitem__ of an object the engine hands to templates is a reviewed one")
+    reviewed = {
+        ("runtime", "TemplateReference"): "blocks by name (BlockReference objects)",
+        ("runtime", "Context"): "template variables by name",
+        ("runtime", "Undefined"): "always fails with UndefinedError",
+        ("runtime", "ChainableUndefined"): "returns itself",
+        ("utils", "LRUCache"): "internal cache, never handed to templates",
+    }
+    n_gi = 0
+    for mod in ("runtime", "utils", "ext", "environment", "nativetypes"):
+        for ci in repo.classes(mod):
+            defines = "__getitem__" in ci.methods
+            for st in ci.node.body:
+                if isinstance(st, ast.Assign) and any(isinstance(t_, ast.Name) and t_.id in ("__getitem__", "__class_getitem__") for t_ in st.targets):
+                    defines = True
+            if not defines:
+                continue
+            n_gi += 1
+            ctx.check((mod, ci.name) in reviewed, f"getitem:{mod}:{ci.name}", f"{mod}:{ci.name}", f"{ci.name} defines __getitem__",
+                      f"{mod}.{ci.name} defines (or aliases) __getitem__: SandboxedEnvironment.getitem returns `obj[key]` without asking is_safe_attribute, so `ns['__class__']` / `ns['_Namespace__attrs']` (also through `map(attribute=...)` and format fields `{{0[__class__]}}`) hands a sandboxed template whatever that method returns for an underscore name",
+                      ci.loc(), detail={"class": f"{mod}.{ci.name}", "reviewed": reviewed.get((mod, ci.name))})
+    ctx.floor("classes with __getitem__", n_gi, 4)
     return __doc__ or ""
 
 
